@@ -961,8 +961,14 @@ func (e *engine) step(i int, op Op) (stop bool, err error) {
 	}
 	ok := pan == "" && rerr == nil
 	var w2 *world
+	var mut2 *handle
+	var mutated2 []any
 	if p.risky {
 		w2 = e.w.clone()
+		if p.mutIdx >= 0 {
+			mut2 = w2.all()[p.mutIdx]
+			mutated2 = writtenNodes(mut2, p.storeFD, !p.elemOnly)
+		}
 	}
 	panID := ""
 	if pan != "" {
@@ -983,7 +989,13 @@ func (e *engine) step(i int, op Op) (stop bool, err error) {
 			}
 		}})
 		if w2 != nil {
-			p.model(w2, &mctx{w: w2, lenient: ok, ideal: true})
+			nh2, merr2 := p.model(w2, &mctx{w: w2, lenient: ok, ideal: true})
+			if (rerr == nil) != (merr == nil) && (rerr == nil) == (merr2 == nil) {
+				// Only the validate-everything-first order explains the outcome (a value that contains a live
+				// view of the field being assigned reads differently once the field has been cleared).
+				e.w, w2 = w2, nil
+				nh, merr, mut, mutated = nh2, merr2, mut2, mutated2
+			}
 		}
 	}
 	switch {
@@ -1035,6 +1047,7 @@ func (e *engine) step(i int, op Op) (stop bool, err error) {
 			return false, bad("%s: %v", where, err)
 		}
 		e.w = w2 // validate-then-assign order: also fine
+		mut, mutated = mut2, mutated2
 	} else if w2 != nil {
 		if a, b := e.w.renderAll(), w2.renderAll(); a != b {
 			shape := "a failed assignment to a repeated/map field left it cleared or partly filled"
